@@ -114,6 +114,13 @@ type c14cScenario struct {
 	// low offset, then the source answered with a full resync under the same run id (snapshot
 	// ending where the judged stream starts) and the tool stopped before replaying anything.
 	Pre []int `json:"pre,omitempty"`
+	// PreSameLife: the earlier units belong to the SAME life: they were replayed from the offset of
+	// the first full sync up to where the judged stream starts, the frontier was stored, the tool
+	// stopped cleanly. No resync in between: the first judged start finds a stored frontier.
+	PreSameLife bool `json:"pre_same_life,omitempty"`
+	// AutoFlush: whenever a processed request leaves nothing in flight the coordinator's flush timer
+	// fires (the frontier is stored as soon as it can be), at no cost in deviations
+	AutoFlush bool `json:"auto_flush,omitempty"`
 }
 
 func c14cExec(t *testing.T, scn c14cScenario, ch *mc.Chooser) (rec c14Rec, machinery string) {
@@ -147,7 +154,14 @@ func c14cExec(t *testing.T, scn c14cScenario, ch *mc.Chooser) (rec c14Rec, machi
 		events := 0
 		preClock := int64(0)
 		if len(scn.Pre) > 0 {
-			const p0 = int64(100)
+			p0 := int64(100)
+			if scn.PreSameLife {
+				n := 0
+				for i, l := range scn.Pre {
+					n += len(redisd.EncodeCommandS("SET", c14cKeys[l], fmt.Sprintf("p%d", i)))
+				}
+				p0 = aofS0 - int64(n)
+			}
 			setPark(false)
 			b := biBootWith(scn.Cfg, rc, "src", aofRunID, p0, true, nodeOf)
 			if b.err != nil {
@@ -162,12 +176,14 @@ func c14cExec(t *testing.T, scn c14cScenario, ch *mc.Chooser) (rec c14Rec, machi
 			vtime.Fire("frontier")
 			r.wait()
 			r.kill()
-			biForceFull = true
-			b2 := biBootWith(scn.Cfg, rc, "src", aofRunID, aofS0, true, nodeOf)
-			biForceFull = false
-			if b2.err != nil {
-				machinery = "pre-history: full resync failed: " + b2.err.Error()
-				return
+			if !scn.PreSameLife {
+				biForceFull = true
+				b2 := biBootWith(scn.Cfg, rc, "src", aofRunID, aofS0, true, nodeOf)
+				biForceFull = false
+				if b2.err != nil {
+					machinery = "pre-history: full resync failed: " + b2.err.Error()
+					return
+				}
 			}
 			preClock = cl.Clock()
 		}
@@ -295,6 +311,9 @@ func c14cExec(t *testing.T, scn c14cScenario, ch *mc.Chooser) (rec c14Rec, machi
 				case "req":
 					p := a.p
 					crashed = doEvent(func() { cl.Nodes[p.node].Step(p.conn, 0); run.wait() })
+					if scn.AutoFlush && !crashed && !run.ended && len(listParked()) == 0 {
+						crashed = doEvent(func() { time.Sleep(150 * time.Millisecond); vtime.Fire("frontier"); run.wait() })
+					}
 				case "item":
 					it := items[pos]
 					pos++
